@@ -825,32 +825,7 @@ func c20R8(c *Ctx) {
 				c.ok(key, c.ipos(in), "dominated by index < bound <= length")
 				return
 			}
-			// (loop counter)
-			if p, isPhi := strip(idx).(*ssa.Phi); isPhi {
-				good, why := true, ""
-				for k, e := range p.Edges {
-					if c0, isC := constInt(e); isC {
-						if c0 < 0 || (!symbolic && c0 >= L) || (symbolic && c0 != 0) {
-							good, why = false, "starts out of range"
-						}
-						continue
-					}
-					b, isB := e.(*ssa.BinOp)
-					if !isB || b.Op != token.ADD || !isConstIntV(1)(b.Y) || strip(b.X) != ssa.Value(p) {
-						good, why = false, "is changed otherwise than by +1"
-						continue
-					}
-					pred := p.Block().Preds[k]
-					fs := append(append([]fact{}, factsAt(b.Block())...), edgeFactsTo(pred, p.Block())...)
-					if !factCmp(fs, token.LSS, isValue(p), func(v ssa.Value) bool { return upTo(v, 1) }) {
-						good, why = false, "is incremented without an established bound index < K with K <= length - 1"
-					}
-				}
-				c.check(good, key, c.ipos(in), "loop counter bounded below the array length", "the index into a fixed-size array "+why+": it can reach the array's length (index out of range while rendering)")
-				return
-			}
-			// (ring index): a field
-			if _, fld, isF := fieldOf(idx); isF && !symbolic {
+			ringOK := func(fld string) (bool, string) {
 				good, why := true, ""
 				nSt := 0
 				for _, g := range c.AllFns {
@@ -897,7 +872,43 @@ func c20R8(c *Ctx) {
 						}
 					})
 				}
-				c.check(good && nSt > 0, key, c.ipos(in), "ring index: every store is a constant in range or is followed by the wrap-around test", "the ring index "+fld+" "+why+": it can reach the array's length (index out of range while rendering)")
+				return good && nSt > 0, why
+			}
+			// (loop counter)
+			if p, isPhi := strip(idx).(*ssa.Phi); isPhi {
+				good, why := true, ""
+				for k, e := range p.Edges {
+					if c0, isC := constInt(e); isC {
+						if c0 < 0 || (!symbolic && c0 >= L) || (symbolic && c0 != 0) {
+							good, why = false, "starts out of range"
+						}
+						continue
+					}
+					if _, fld, isF := fieldOf(e); isF && !symbolic {
+						// `base := 0; if full { base = ring.idx }`: the ring index picked into a local
+						if okR, whyR := ringOK(fld); !okR {
+							good, why = false, "takes the ring index "+fld+", which "+whyR
+						}
+						continue
+					}
+					b, isB := e.(*ssa.BinOp)
+					if !isB || b.Op != token.ADD || !isConstIntV(1)(b.Y) || strip(b.X) != ssa.Value(p) {
+						good, why = false, "is changed otherwise than by +1"
+						continue
+					}
+					pred := p.Block().Preds[k]
+					fs := append(append([]fact{}, factsAt(b.Block())...), edgeFactsTo(pred, p.Block())...)
+					if !factCmp(fs, token.LSS, isValue(p), func(v ssa.Value) bool { return upTo(v, 1) }) {
+						good, why = false, "is incremented without an established bound index < K with K <= length - 1"
+					}
+				}
+				c.check(good, key, c.ipos(in), "loop counter bounded below the array length", "the index into a fixed-size array "+why+": it can reach the array's length (index out of range while rendering)")
+				return
+			}
+			// (ring index): a field
+			if _, fld, isF := fieldOf(idx); isF && !symbolic {
+				good, why := ringOK(fld)
+				c.check(good, key, c.ipos(in), "ring index: every store is a constant in range or is followed by the wrap-around test", "the ring index "+fld+" "+why+": it can reach the array's length (index out of range while rendering)")
 				return
 			}
 			c.bad(key, c.ipos(in), "a variable index into a fixed-size array that is neither a bounded loop counter, nor a ring index with its wrap-around test, nor guarded by index < length")
